@@ -646,6 +646,9 @@ func storeHistory(o *Out, r *rand.Rand, h, nPuts int, thorough bool) {
 			if nearest != nil && r.Intn(4) == 0 {
 				gid = nearest
 			}
+			if r.Intn(40) == 0 {
+				gid = append([]byte{}, node[:]...) // the node's own id: nothing was ever put under it
+			}
 			if r.Intn(6) == 0 {
 				gid = append([]byte{}, gid...)
 				gid[r.Intn(32)] ^= 1 << uint(r.Intn(8))
@@ -653,7 +656,10 @@ func storeHistory(o *Out, r *rand.Rand, h, nPuts int, thorough bool) {
 			v, err := st.Get(contentKey(), gid)
 			// is the item in the database (raw read under the xor key)?
 			present := 0
-			if _, closer, rerr := db.Get(xorKey(gid, node[:])); rerr == nil {
+			if bytes.Equal(gid, node[:]) {
+				// the node's own id: its key is the key of the size record, which is no item (Get answered with that record
+				// until fix 3b6a432)
+			} else if _, closer, rerr := db.Get(xorKey(gid, node[:])); rerr == nil {
 				present = 1
 				closer.Close()
 			}
